@@ -17,8 +17,12 @@ def sh(cmd, cwd, timeout=1500):
 
 
 def main():
-    for pid in sys.argv[1:]:
-        src = "/tmp/seedout/" + pid
+    args = sys.argv[1:]
+    root, suffix = "/tmp/seedout", ""
+    if args and args[0] == "--root":
+        root, suffix, args = args[1], args[2], args[3:]
+    for pid in args:
+        src = root + "/" + pid
         if not os.path.exists(src + "/patch.diff"):
             print(pid, "no deliverable")
             continue
@@ -27,11 +31,12 @@ def main():
         dests = {}
         for f in demo_files:
             b = os.path.basename(f)
-            m = re.search(r"([\w/.\-]+/" + re.escape(b) + r")", dp)
-            dests[f] = m.group(1).lstrip("./") if m else None
+            cands = [x.lstrip("./") for x in re.findall(r"([\w/.\-]+/" + re.escape(b) + r")", dp)]
+            cands = [x for x in cands if not x.startswith("tmp/")] or cands
+            dests[f] = cands[0] if cands else None
             if dests[f] and dests[f].startswith("tmp/"):
                 # absolute path inside the agent's worktree
-                m2 = re.search(r"/tmp/wt/C\d+/(\S+" + re.escape(b) + ")", dp)
+                m2 = re.search(r"/tmp/wt2?/C\d+/(\S+" + re.escape(b) + ")", dp)
                 dests[f] = m2.group(1) if m2 else None
         if not demo_files or any(v is None for v in dests.values()):
             print(pid, "cannot determine demo placement", dests)
@@ -85,7 +90,7 @@ def main():
             print(pid, "CONFIRMED" if good else "NOT CONFIRMED", {k: meta[k] for k in ("suite_passes_with_patch", "demo_fails_with_patch", "demo_passes_without_patch")})
             json.dump(meta, open(src + "/verify.json", "w"), indent=1)
             if good:
-                dst = "/verif/seeded/" + pid
+                dst = "/verif/seeded/" + pid + suffix
                 os.makedirs(dst, exist_ok=True)
                 shutil.copy(src + "/patch.diff", dst)
                 for f in demo_files:
